@@ -103,6 +103,13 @@ def main() -> None:
                 of_function(w, where + " (wrapped)", out)
 
         out = {}
+        # the third-party database the library consults (process-wide, so any write is shared state)
+        try:
+            import pycountry
+            codes = sorted(c.alpha_2 for c in pycountry.countries)
+            out["pycountry.countries"] = ("db", len(codes), hash(tuple(codes)))
+        except Exception:  # noqa: BLE001
+            pass
         for mname, mod in sorted(sys.modules.items()):
             if not (mname == "schwifty" or mname.startswith("schwifty.")) or mod is None:
                 continue
@@ -186,6 +193,17 @@ def main() -> None:
                         b.domestic_bank_codes, b.bank_names, b.exists, b.formatted, b.type, hash(b), b.country
                     except ValueError:
                         pass
+                # table countries the country database does not know (e.g. user-assigned codes)
+                import pycountry as _pc
+                for cc in sorted(dict.keys(registry.get("iban"))):
+                    if _pc.countries.get(alpha_2=cc) is None:
+                        for mk in (lambda: BIC("ABCD" + cc + "22", allow_invalid=True).country,
+                                   lambda: IBAN(cc + "00", allow_invalid=True).country,
+                                   lambda: BIC("ABCD" + cc + "22").exists):
+                            try:
+                                mk()
+                            except ValueError:
+                                pass
                 IBAN.generate("DE", "37040044", "532013000")
                 IBAN.generate("ES", "2100", "0200051332", "0418")
                 IBAN.generate("GB", "NWBK601613", "31926819")
